@@ -163,6 +163,7 @@ type vOp struct {
 	objKind string
 	tok     string
 	w       *vRespWriter
+	failed  bool
 }
 
 func verifC18_AdminAPI() { vAdminAPI(true) }
@@ -209,16 +210,21 @@ func vAdminAPI(concurrent bool) {
 		run := func() {
 			defer wg.Done()
 			r := &http.Request{Method: "X", URL: &url.URL{Path: "/objects"}, Body: &vBodyReader{s: op.tok}}
-			switch op.kind {
-			case 0:
-				s.createObject(op.w, r)
-			case 1:
-				vNames[r] = op.name
-				s.updateObject(op.w, r)
-			case 2:
-				vNames[r] = op.name
-				s.deleteObject(op.w, r)
-			}
+			// as in the real router: the config-version attacher middleware runs first (it
+			// stamps the response with the version current at arrival), then the handler
+			dm := &dynamicMux{server: s}
+			dm.newConfigVersionAttacher(http.HandlerFunc(func(w http.ResponseWriter, r *http.Request) {
+				switch op.kind {
+				case 0:
+					s.createObject(w, r)
+				case 1:
+					vNames[r] = op.name
+					s.updateObject(w, r)
+				case 2:
+					vNames[r] = op.name
+					s.deleteObject(w, r)
+				}
+			})).ServeHTTP(op.w, r)
 		}
 		if concurrent {
 			go run()
@@ -234,7 +240,16 @@ func vAdminAPI(concurrent bool) {
 	for _, op := range ops {
 		ok := op.w.status == 0 || op.w.status == 200 || op.w.status == 201
 		if !ok {
-			verifAssert(op.w.hdr.Get(ConfigVersionKey) == "", "failed-request-gets-no-version")
+			// a refused request carries the version that was current when it arrived, never a new one
+			fv := op.w.hdr.Get(ConfigVersionKey)
+			old := false
+			for d := 0; d <= n; d++ {
+				if fv == vItoa(v0+int64(d)) {
+					old = true
+				}
+			}
+			verifAssert(old, "failed-request-gets-no-new-version")
+			op.failed = true
 			continue
 		}
 		succ++
@@ -268,7 +283,7 @@ func vAdminAPI(concurrent bool) {
 	}
 	for d := 1; d <= succ; d++ {
 		for _, op := range ops {
-			if op.w.hdr.Get(ConfigVersionKey) == vItoa(v0+int64(d)) {
+			if !op.failed && op.w.hdr.Get(ConfigVersionKey) == vItoa(v0+int64(d)) {
 				cur, exists := ref[op.name]
 				switch op.kind {
 				case 0:
